@@ -253,7 +253,7 @@ void checkShapeIndices(NifFile& nif, NiShape* shape, Ctx& ctx, const std::string
 		if (ie && ie->name == "LOCKEDNORM")
 			for (uint32_t i = 0; i < ie->integersData.size(); i++) REQ(ie->integersData[i] < nv, "index:lockedNorm>=numVerts", "LOCKEDNORM value " + std::to_string(ie->integersData[i]) + " nv=" + std::to_string(nv));
 	}
-	if (dynamic_cast<BSSubIndexTriShape*>(shape)) checkSegmentRanges(nif, shape, ctx, where0);
+	if (dynamic_cast<BSSubIndexTriShape*>(shape) && ctx.property != "C13") checkSegmentRanges(nif, shape, ctx, where0); // (C13 replaces triangle lists; segment upkeep is C17's subject)
 }
 
 void checkSegmentRanges(NifFile& nif, NiShape* shape, Ctx& ctx, const std::string& where0) {
